@@ -1,18 +1,18 @@
 ----------------------------- MODULE AddrTheorems -----------------------------
 (* Property layer for C10 on TeakAddr (W = 16, the real widths; the domain is small enough):            *)
-(*  - modulo on, step +-1: the register walks cyclically through the aligned buffer [base, base+mod]     *)
+(*  - modulo on, step +-1: the register walks cyclically through the aligned buffer [base, base+vMod]     *)
 (*    and never alters the address bits above the buffer's power-of-two alignment, in Teak and           *)
-(*    TeakLite-compatible mode (for every mod value x every in-buffer offset x high-bit patterns);       *)
-(*  - modulo off: r' = r + step mod 2^16 for every step source; r3/r7 are zeroed in end-pointer mode;    *)
+(*    TeakLite-compatible mode (for every vMod value x every in-buffer offset x high-bit patterns);       *)
+(*  - modulo off: r' = r + step vMod 2^16 for every step source; r3/r7 are zeroed in end-pointer mode;    *)
 (*    the access uses the pre-modified value; a zero step never changes the register;                    *)
 (*  - bit reversal with modulo off: address = bitrev(r) while r steps linearly.                          *)
 EXTENDS TeakAddr, TLC
 
 CONSTANT Mods                    \* the modulo values to enumerate (0..511 in the thorough configuration)
 
-VARIABLE mod
-Init == mod = 0
-Next == mod' \in Mods
+VARIABLE vMod
+Init == vMod = 0
+Next == vMod' \in Mods
 
 \* the fields of the register record that address generation reads
 Regs(cmd, unit, m, br, md, step, step0, stp16, ep, rv) ==
@@ -24,21 +24,21 @@ AlignMask(md) == 2 ^ Log2p1(md) - 1
 Highs == {0, 21504, 64512, 43008}          \* 0x0000 0x5400 0xFC00 0xA800: bits above any 9-bit buffer
 
 ModuloWalk ==
-    \A cmd \in 0 .. 1 : \A unit \in {0, 5} : \A hi \in Highs : \A low \in 0 .. mod :
-        LET mask == AlignMask(mod)
+    \A cmd \in 0 .. 1 : \A unit \in {0, 5} : \A hi \in Highs : \A low \in 0 .. vMod :
+        LET mask == AlignMask(vMod)
             base == hi - (hi & mask)
             a    == base + low
-            r    == Regs(cmd, unit, 1, 0, mod, 0, 0, 0, 0, a)
+            r    == Regs(cmd, unit, 1, 0, vMod, 0, 0, 0, 0, a)
             up   == StepAddress(r, unit, a, 1, FALSE)
             dn   == StepAddress(r, unit, a, 2, FALSE)
-        IN  /\ up = (IF mod = 0 THEN a ELSE IF low = mod THEN base ELSE a + 1)
-            /\ dn = (IF mod = 0 THEN a ELSE IF low = 0 THEN base + mod ELSE a - 1)
+        IN  /\ up = (IF vMod = 0 THEN a ELSE IF low = vMod THEN base ELSE a + 1)
+            /\ dn = (IF vMod = 0 THEN a ELSE IF low = 0 THEN base + vMod ELSE a - 1)
             /\ AndNot(up, mask) = base /\ AndNot(dn, mask) = base            \* alignment bits untouched
-            /\ (up & mask) <= mod /\ (dn & mask) <= mod                       \* stays inside the buffer
-            /\ mod # 0 => StepAddress(r, unit, up, 2, FALSE) = a              \* +1 then -1 is the identity
+            /\ (up & mask) <= vMod /\ (dn & mask) <= vMod                       \* stays inside the buffer
+            /\ vMod # 0 => StepAddress(r, unit, up, 2, FALSE) = a              \* +1 then -1 is the identity
             \* the configured step register holding +1 / -1 behaves like the fixed steps (7-bit step, stp16 off)
-            /\ cmd = 1 => /\ StepAddress(Regs(cmd, unit, 1, 0, mod, 1, 0, 0, 0, a), unit, a, 3, FALSE) = up
-                          /\ StepAddress(Regs(cmd, unit, 1, 0, mod, 127, 0, 0, 0, a), unit, a, 3, FALSE) = dn
+            /\ cmd = 1 => /\ StepAddress(Regs(cmd, unit, 1, 0, vMod, 1, 0, 0, 0, a), unit, a, 3, FALSE) = up
+                          /\ StepAddress(Regs(cmd, unit, 1, 0, vMod, 127, 0, 0, 0, a), unit, a, 3, FALSE) = dn
 
 Addrs == {0, 1, 2, 255, 256, 32767, 32768, 65534, 65535, 4660, 43981}
 Steps7 == {0, 1, 2, 63, 64, 126, 127}
@@ -48,23 +48,23 @@ Linear ==
     \A cmd \in 0 .. 1 : \A unit \in {0, 3, 4, 7} : \A a \in Addrs : \A m \in 0 .. 1 : \A br \in 0 .. 1 :
         (m = 0 \/ br = 1) =>            \* modulo disabled for this register
         /\ \A st \in 0 .. 7 :
-             LET r == Regs(cmd, unit, m, br, mod, 5, 9, 0, 0, a)
+             LET r == Regs(cmd, unit, m, br, vMod, 5, 9, 0, 0, a)
                  want == CASE st = 0 -> a [] st = 1 -> U16(a + 1) [] st = 2 -> U16(a + B - 1)
                            [] st \in {4, 6} -> U16(a + 2) [] st \in {5, 7} -> U16(a + B - 2)
                            [] st = 3 -> U16(a + (IF br = 1 /\ m = 0 THEN 9 ELSE 5))
              IN  StepAddress(r, unit, a, st, FALSE) = want
         \* configured steps: 7-bit signed step, or the 16-bit step when stp16 is set in Teak mode
         /\ \A s7 \in Steps7 : \A s16 \in Steps16 : \A stp16 \in 0 .. 1 :
-             LET r == Regs(cmd, unit, m, br, mod, s7, s16, stp16, 0, a)
+             LET r == Regs(cmd, unit, m, br, vMod, s7, s16, stp16, 0, a)
                  amt == IF stp16 = 1 /\ cmd = 0 THEN (IF m = 1 THEN Sx(s16, 9) ELSE s16)
                         ELSE IF br = 1 /\ m = 0 THEN s16 ELSE Sx(s7, 7)
              IN  StepAddress(r, unit, a, 3, FALSE) = U16(a + amt)
         \* dmod forces linear stepping even with modulo enabled
-        /\ StepAddress(Regs(cmd, unit, 1, 0, mod, 0, 0, 0, 0, a), unit, a, 1, TRUE) = U16(a + 1)
+        /\ StepAddress(Regs(cmd, unit, 1, 0, vMod, 0, 0, 0, 0, a), unit, a, 1, TRUE) = U16(a + 1)
 
 PreModifiedAndEndPointer ==
     \A cmd \in 0 .. 1 : \A unit \in {0, 3, 7} : \A a \in Addrs : \A ep \in 0 .. 1 : \A st \in 0 .. 7 :
-        LET r == Regs(cmd, unit, 0, 0, mod, 5, 9, 0, ep, a)
+        LET r == Regs(cmd, unit, 0, 0, vMod, 5, 9, 0, ep, a)
             t == RnAndModify(r, unit, st, FALSE)
         IN  /\ t.val = a                                                       \* the access uses the old value
             /\ (ep = 1 /\ unit \in {3, 7} /\ st \notin {4, 5, 6, 7}) => t.r.r[unit + 1] = 0
@@ -73,15 +73,15 @@ PreModifiedAndEndPointer ==
 
 BitReversal ==
     \A a \in Addrs : \A m \in 0 .. 1 : \A br \in 0 .. 1 : \A unit \in {1, 6} :
-        LET r == Regs(0, unit, m, br, mod, 0, 0, 0, 0, a) IN
+        LET r == Regs(0, unit, m, br, vMod, 0, 0, 0, 0, a) IN
         /\ RnAddress(r, unit, a) = (IF br = 1 /\ m = 0 THEN BitReverse16(a) ELSE a)
         /\ BitReverse16(BitReverse16(a)) = a
         /\ br = 1 /\ m = 0 => RnAndModify(r, unit, 1, FALSE).r.r[unit + 1] = U16(a + 1)   \* the register steps linearly
 
 ZeroStep ==
     \A cmd \in 0 .. 1 : \A a \in Addrs : \A m \in 0 .. 1 : \A br \in 0 .. 1 : \A dm \in BOOLEAN :
-        /\ StepAddress(Regs(cmd, 2, m, br, mod, 0, 0, 1, 0, a), 2, a, 0, dm) = a
-        /\ StepAddress(Regs(cmd, 2, m, br, mod, 0, 0, 1, 0, a), 2, a, 3, dm) = a      \* configured step of zero
+        /\ StepAddress(Regs(cmd, 2, m, br, vMod, 0, 0, 1, 0, a), 2, a, 0, dm) = a
+        /\ StepAddress(Regs(cmd, 2, m, br, vMod, 0, 0, 1, 0, a), 2, a, 3, dm) = a      \* configured step of zero
 
 Inv == ModuloWalk /\ Linear /\ PreModifiedAndEndPointer /\ BitReversal /\ ZeroStep
 =============================================================================
